@@ -126,7 +126,19 @@ def _sourcemap_rules(chk: Check, ctx: Any) -> None:
     init_params = astq.params_of(init.node)
 
     # writer: json.dumps({...}) -> key path -> self attribute
-    dump = next((c for c in walk_no_nested(ser.node) if isinstance(c, ast.Call) and dotted(c.func) == "json.dumps"), None)
+    dump = None
+    ser_methods = [ser]
+    seen_m = {ser.node.name}
+    for m_ in ser_methods:
+        dump = dump or next((c for c in walk_no_nested(m_.node) if isinstance(c, ast.Call) and dotted(c.func) == "json.dumps"), None)
+        for c in walk_no_nested(m_.node):
+            if isinstance(c, ast.Call) and isinstance(c.func, ast.Attribute) and isinstance(c.func.value, ast.Name) \
+                    and c.func.value.id == "self" and c.func.attr not in seen_m:
+                hm = repo.find_method(cls, c.func.attr)
+                if hm is not None and len(ser_methods) < 5:
+                    seen_m.add(c.func.attr)
+                    ser_methods.append(hm)
+    _memo_rule(chk, ctx, cls, ser_methods)
     if dump is None or not dump.args or not isinstance(dump.args[0], ast.Dict):
         chk.unknown("C14-R1", "SourceMap.serialize:shape", ser, "serialize() is not json.dumps(<dict display>)")
         return
@@ -235,6 +247,83 @@ def _sourcemap_rules(chk: Check, ctx: Any) -> None:
                        f"{ename} defines __eq__")
 
 
+def _memo_rule(chk: Check, ctx: Any, cls: Cls, ser_methods: list[Func]) -> None:
+    """R5: a memo of the serialised text must be dropped on every path after the tables were changed."""
+    from ..engine.cfg import build_cfg
+    repo = ctx.repo
+    tables = set(astq.ctor_param_attrs(repo, cls).values())
+    written: set[str] = set()
+    read: set[str] = set()
+    for m in ser_methods:
+        for n in walk_no_nested(m.node):
+            a = astq.self_attr(n)
+            if a and a not in tables:
+                if isinstance(n.ctx, ast.Store):  # type: ignore[attr-defined]
+                    written.add(a)
+                else:
+                    read.add(a)
+            if isinstance(n, ast.Subscript) and isinstance(n.ctx, ast.Store) and astq.self_attr(n.value) and astq.self_attr(n.value) not in tables:
+                written.add(astq.self_attr(n.value))  # type: ignore[arg-type]
+    memos = {a for a in written & read}
+    if not memos:
+        chk.hold("C14-R5", "SourceMap.serialize:no-memo", ser_methods[0], "serialize() keeps no state between calls")
+        return
+
+    def is_clear(n: object, memo: str) -> bool:
+        if not isinstance(n, ast.stmt):
+            return False
+        for x in ast.walk(n):
+            if isinstance(x, ast.Call) and isinstance(x.func, ast.Attribute) and x.func.attr in ("clear", "pop", "popitem") \
+                    and astq.self_attr(x.func.value) == memo:
+                return True
+            if isinstance(x, (ast.Assign, ast.AnnAssign)):
+                tg = x.targets if isinstance(x, ast.Assign) else [x.target]
+                if any(astq.self_attr(t) == memo for t in tg):
+                    return True
+            if isinstance(x, ast.Delete) and any(astq.self_attr(t) == memo or (isinstance(t, ast.Subscript) and astq.self_attr(t.value) == memo)
+                                                  for t in x.targets):
+                return True
+        return False
+
+    def mutates_tables(n: object, loopvars: set[str]) -> bool:
+        if not isinstance(n, ast.stmt) or isinstance(n, (ast.If, ast.For, ast.While, ast.With, ast.Try)):
+            return False
+        for x in ast.walk(n):
+            if isinstance(x, (ast.Assign, ast.AugAssign, ast.AnnAssign)):
+                tg = x.targets if isinstance(x, ast.Assign) else [x.target]
+                for t in tg:
+                    for y in ast.walk(t):
+                        if astq.self_attr(y) in tables:
+                            return True
+                        if isinstance(y, ast.Attribute) and isinstance(y.value, ast.Name) and y.value.id in loopvars:
+                            return True
+            if isinstance(x, ast.Call) and isinstance(x.func, ast.Attribute) and x.func.attr in (
+                    "append", "pop", "clear", "update", "remove", "insert", "extend", "setdefault", "popitem") \
+                    and any(astq.self_attr(y) in tables for y in ast.walk(x.func.value)):
+                return True
+        return False
+
+    for mname, fn in cls.methods.items():
+        if mname == "__init__" or any(mname == m.node.name for m in ser_methods):
+            continue
+        f = Func(cls.mod, cls, fn)
+        loopvars = {n.target.id for n in walk_no_nested(fn) if isinstance(n, ast.For) and isinstance(n.target, ast.Name)
+                    and any(astq.self_attr(y) in tables for y in ast.walk(n.iter))}
+        cfg = build_cfg(fn)
+        muts = [n for n in cfg.nodes if mutates_tables(n, loopvars)]
+        if not muts:
+            continue
+        for memo in sorted(memos):
+            bad = [m for m in muts if not is_clear(m, memo) and cfg.path_avoiding(m, cfg.exit, lambda n, memo=memo: is_clear(n, memo))]
+            key = f"SourceMap.{mname}:memo:{memo}"
+            if bad:
+                chk.violation("C14-R5", key, f,
+                              f"serialize() memoises its result in self.{memo}, but {mname}() can return after changing the tables "
+                              f"(`{norm(bad[0])}`) without dropping it: a later serialize() returns the text of the old state", node=bad[0])
+            else:
+                chk.hold("C14-R5", key, f, f"self.{memo} dropped on every path after a table change")
+
+
 def _rewrite_rules(chk: Check, ctx: Any) -> None:
     repo = ctx.repo
     f = repo.func(f"{SM}:SourceMap.rewrite_offsets")
@@ -294,6 +383,8 @@ def _rewrite_rules(chk: Check, ctx: Any) -> None:
         chk.unknown("C14-R4", "rewrite_offsets:return_addr", f, "no loop over the macro mappings found")
         return
     mvar = loop.target.id
+    if _range_idiom(chk, f, loop, mvar, nm):
+        return
     whiles = [n for n in ast.walk(loop) if isinstance(n, ast.While)]
     final = [n for n in ast.walk(loop) if isinstance(n, ast.Assign) and any(
         isinstance(t, ast.Attribute) and isinstance(t.value, ast.Name) and t.value.id == mvar and t.attr == "return_addr" for t in n.targets)]
@@ -366,11 +457,55 @@ def _rewrite_rules(chk: Check, ctx: Any) -> None:
                f"return address is set to {norm(fa)} instead of {nm}[{avar}]", "return address mapped through the new mapping",
                node=final[0])
     # nothing else deleted
-    dels = [n for n in walk_no_nested(fn) if isinstance(n, ast.Delete) or (
+    table_attrs = set(astq.ctor_param_attrs(repo, repo.cls(f"{SM}.SourceMap")).values())
+    dels = [n for n in walk_no_nested(fn) if (isinstance(n, ast.Delete) and any(
+        astq.self_attr(x) in table_attrs for t in n.targets for x in ast.walk(t))) or (
         isinstance(n, ast.Call) and isinstance(n.func, ast.Attribute) and n.func.attr in ("pop", "clear", "popitem", "remove")
-        and any(astq.self_attr(x) for x in ast.walk(n.func.value)))]
+        and any(astq.self_attr(x) in table_attrs for x in ast.walk(n.func.value)))]
     chk.decide("C14-R4", "rewrite_offsets:no-other-deletion", not dels, f,
                f"rewrite_offsets() deletes entries beyond the mapping filter: {[norm(d) for d in dels]}", "no other deletion")
+
+
+def _range_idiom(chk: Check, f: Func, loop: ast.For, mvar: str, nm: str) -> bool:
+    """for addr in range(m.return_addr, STOP): if addr in mapping: m.return_addr = mapping[addr]; break"""
+    fn = f.node
+    inner = [n for n in ast.walk(loop) if isinstance(n, ast.For) and n is not loop and isinstance(n.iter, ast.Call)
+             and dotted(n.iter.func) == "range" and isinstance(n.target, ast.Name)]
+    if len(inner) != 1:
+        return False
+    r = inner[0]
+    avar = r.target.id  # type: ignore[union-attr]
+    args = r.iter.args  # type: ignore[union-attr]
+    if len(args) != 2 or norm(args[0]) != f"{mvar}.return_addr":
+        chk.unknown("C14-R4", "rewrite_offsets:return_addr:start", f, f"range search {norm(r.iter)} does not start at the return address", node=r)
+        return True
+    chk.hold("C14-R4", "rewrite_offsets:return_addr:start", f, "search starts at m.return_addr", node=r)
+    chk.hold("C14-R4", "rewrite_offsets:return_addr:step", f, "range() advances by 1", node=r)
+    maxvars = {n.targets[0].id for n in walk_no_nested(fn) if isinstance(n, ast.Assign) and isinstance(n.targets[0], ast.Name)
+               and isinstance(n.value, ast.Call) and dotted(n.value.func) == "max" and norm(n.value.args[0]) in (nm, f"{nm}.keys()")}
+    stop = args[1]
+
+    def is_max(e: ast.AST) -> bool:
+        return (isinstance(e, ast.Name) and e.id in maxvars) or (
+            isinstance(e, ast.Call) and dotted(e.func) == "max" and norm(e.args[0]) in (nm, f"{nm}.keys()"))
+    bound_ok: bool | None = None
+    if is_max(stop):
+        bound_ok = False  # range excludes its stop value
+    elif isinstance(stop, ast.BinOp) and isinstance(stop.op, ast.Add) and is_max(stop.left) and isinstance(stop.right, ast.Constant):
+        bound_ok = stop.right.value >= 1
+    chk.decide("C14-R4", "rewrite_offsets:return_addr:bound", bound_ok, f,
+               f"forward search `{norm(r.iter)}` stops before the largest old offset: a return address whose next surviving op is the "
+               "last op of the mapping is left unmapped", "search includes max(old offsets)", node=r)
+    assigns = [n for n in ast.walk(r) if isinstance(n, ast.Assign) and any(
+        isinstance(t, ast.Attribute) and isinstance(t.value, ast.Name) and t.value.id == mvar and t.attr == "return_addr" for t in n.targets)]
+    if len(assigns) != 1:
+        chk.unknown("C14-R4", "rewrite_offsets:return_addr:assign", f, "assignment of the new return address not found", node=r)
+        return True
+    fa = assigns[0].value
+    fin_ok = isinstance(fa, ast.Subscript) and isinstance(fa.value, ast.Name) and fa.value.id == nm and norm(fa.slice) == avar
+    chk.decide("C14-R4", "rewrite_offsets:return_addr:assign", fin_ok, f,
+               f"return address is set to {norm(fa)} instead of {nm}[{avar}]", "return address mapped through the new mapping", node=assigns[0])
+    return True
 
 
 def run(chk: Check, ctx: Any) -> None:
@@ -385,6 +520,8 @@ def run(chk: Check, ctx: Any) -> None:
                        "int keys restored; element classes agree")
     chk.rule("C14-R2", "a field declared tuple[...] that is read from a JSON array is converted back to a tuple")
     chk.rule("C14-R3", "SourceMap.__eq__ compares only containers whose element classes define __eq__")
+    chk.rule("C14-R5", "serialize() depends only on the current tables: a memo kept by serialize() is dropped on every path of every "
+                       "method after it changed a table")
     chk.rule("C14-R4", "rewrite_offsets: tables rebuilt as {mapping[k]: v ... if k in mapping}; return address = mapping[first surviving offset >= old], "
                        "searched forward by 1 and given up only after max(old offsets)")
     repo = ctx.repo
